@@ -426,9 +426,13 @@ func (s *Stage) partReceived(part sts.Binned) bool {
 				s.logInfo("Part already received:", final.name, beg, end)
 				return true
 			}
-		} else {
-			s.delPathLock(path)
 		}
+		// (The lock entry stays even when nothing is known about the file
+		// yet: its first parts may be arriving right now on other
+		// connections.  Dropping the entry here lets the next reception
+		// create a second lock for the same file while one holder of the
+		// old lock is still inside its critical section, and one of the
+		// two companion updates is lost.  finalize() drops the entry.)
 	} else if existing.state != stateFailed &&
 		existing.hash == final.hash &&
 		existing.renamed == final.renamed {
